@@ -13,7 +13,15 @@ def nontrivial_scope(op, obs):
 
 PURE_NONTRIVIAL = {"scope": nontrivial_scope}
 
+HIST_RULE = ("D1 history driver: seeded histories (2-5 clients, code / hybrid / refresh / revoke / introspect / time-advance / registration-change operations, ~70% valid continuations and ~30% adversarial moves: replay of any generation, foreign or unauthenticated client, changed redirect_uri, verifier variants, mutated or foreign tokens, smuggled parameters, boundary time jumps) executed in-process against the real library over the reference store inside a synctest bubble and against the Lean model; compared per operation: outcome (+RFC error/status), storage-call log, full store dump; a history is non-trivial when an accepted credential exchange is followed by a later operation on one of its tokens; distinct = distinct op sequences")
+
 PROPS = {
+    "C01": dict(
+        modules=["Fosite.Props.C01"],
+        drivers=[dict(name="hist", kind="hist")],
+        rule=HIST_RULE,
+        partial=["family-wide revocation after replay (descendants dead) is checked by the monitor on implementation traces and by the correspondence; its Lean theorem (index invariant) is not yet proved"],
+    ),
     "C12": dict(
         modules=["Fosite.Props.C12"],
         drivers=[dict(name="scope", kind="pure")],
@@ -27,7 +35,130 @@ PROPS = {
 def run_driver_check(R, pid, d, work, seed, tier, search=False):
     if d["kind"] == "pure":
         return run_pure(R, pid, d, work, seed, tier)
+    if d["kind"] == "hist":
+        return run_hist(R, pid, d, work, seed, tier)
     raise ValueError(d["kind"])
+
+
+def split_histories(ops):
+    """indices [start, end) of each history in an op list separated by 'reset' lines"""
+    starts = [i for i, o in enumerate(ops) if o == "reset"]
+    return [(s, (starts[k + 1] if k + 1 < len(starts) else len(ops))) for k, s in enumerate(starts)]
+
+
+def monitor_lines(R, ops_path, obs_path, out_path):
+    import subprocess
+    lo, li = R.read_lines(ops_path), R.read_lines(obs_path)
+    inter = out_path + ".in"
+    with open(inter, "w") as f:
+        for o, b in zip(lo, li):
+            f.write(o + "\n" + b + "\n")
+    ok, err = R.run_driver("monitor", inter, out_path)
+    return R.read_lines(out_path) if ok else None
+
+
+def hist_replay_hits(R, pid, d, work, ops, signature):
+    """re-executes one history (op lines, without the leading reset) and returns whether `signature` fires at its last op"""
+    os.makedirs(work, exist_ok=True)
+    rf = os.path.join(work, "replay_ops.txt")
+    with open(rf, "w") as f:
+        f.write("reset\n" + "\n".join(ops) + "\n")
+    ok, out, opsf, obsf = R.run_harness(d["name"], work, 1, "quick", replay=rf)
+    if not ok:
+        return False, None
+    mon = monitor_lines(R, opsf, obsf, os.path.join(work, "mon.out"))
+    if mon is None:
+        return False, None
+    return (signature in mon[-1].split(" ")), R.read_lines(obsf)
+
+
+def shrink_history(R, pid, d, work, ops, signature, budget_s=40):
+    """greedy one-at-a-time removal; an op is dropped when the same signature still fires at the final op"""
+    import time
+    t0 = time.time()
+    cur = list(ops)
+    i = len(cur) - 2
+    while i >= 0 and time.time() - t0 < budget_s:
+        if cur[i].startswith("cfg") or cur[i].startswith("client"):
+            i -= 1
+            continue
+        cand = cur[:i] + cur[i + 1:]
+        hit, _ = hist_replay_hits(R, pid, d, work, cand, signature)
+        if hit:
+            cur = cand
+        i -= 1
+    return cur
+
+
+def run_hist(R, pid, d, work, seed, tier, replay_file=None):
+    import histdiff
+    wd = os.path.join(work, d["name"])
+    env = {"FZ_BIAS": pid}
+    env.update(d.get("env", {}).get(tier, {}))
+    ok, out, ops, obs = R.run_harness(d["name"], wd, seed, tier, replay=replay_file, extra_env=env)
+    res = dict(evaluations=0, distinct_nontrivial=set(), samples=[], monitor_hits=[], histogram={}, traces=0)
+    if not ok:
+        res["corr_diff"] = {"driver": d["name"], "error": "harness run failed", "log": out[-2000:]}
+        return res
+    model = os.path.join(wd, "model.out")
+    okm, errm = R.run_driver("hist-model", ops, model)
+    lo, li, lm = R.read_lines(ops), R.read_lines(obs), R.read_lines(model)
+    res["evaluations"] = len(lo)
+    hs = split_histories(lo)
+    res["traces"] = len(hs)
+    hist = {}
+    for o, b in zip(lo, li):
+        key = o.split("\t")[0] + "=" + " ".join(b.split(" || ")[0].split(" ")[:2 if b.startswith(("err", "inactive")) else 1])
+        hist[key] = hist.get(key, 0) + 1
+    res["histogram"] = dict(sorted(hist.items(), key=lambda kv: -kv[1])[:60])
+    import re, hashlib
+    for (a, e) in hs:
+        # non-trivial: an accepted credential exchange followed by a later operation on one of its tokens
+        nt = False
+        for i in range(a, e):
+            if li[i].startswith("tokens"):
+                names = set(re.findall(r"\b[AR]\d+\b", li[i].split(" || ")[0]))
+                if any(names & set(re.findall(r"\b[AR]\d+\b", lo[j])) for j in range(i + 1, e)):
+                    nt = True
+                    break
+        if nt:
+            res["distinct_nontrivial"].add(hashlib.sha1("\n".join(lo[a:e]).encode()).hexdigest())
+    if hs:
+        a, e = hs[0]
+        res["samples"] = [{"history_excerpt": [{"op": lo[i], "impl": li[i].split(" || ")[0], "calls": li[i].split(" || ")[1][:300] if " || " in li[i] else ""} for i in range(a + 1, min(e, a + 14))]}]
+    # correspondence
+    i = R.first_diff(li, lm)
+    if i is not None or not okm:
+        det = histdiff.explain(lo[i], li[i] if i < len(li) else "", lm[i] if i < len(lm) else "") if i is not None and i < len(lo) else ""
+        a = max([s for s, _ in hs if s <= (i or 0)] or [0])
+        res["corr_diff"] = {"driver": d["name"], "index": i, "detail": det, "history_prefix": lo[a:(i or 0) + 1][-80:], "stderr": errm[-500:]}
+    # monitor on the implementation's own trace
+    mon = monitor_lines(R, ops, obs, os.path.join(wd, "mon.out"))
+    if mon is None:
+        res["corr_diff"] = res.get("corr_diff") or {"driver": d["name"], "error": "monitor failed"}
+        return res
+    seen = set()
+    other = {}
+    for idx, m in enumerate(mon):
+        if not m:
+            continue
+        for sig in m.split(" "):
+            if not sig.startswith(pid + ":"):
+                other[sig] = other.get(sig, 0) + 1
+                continue
+            if sig in seen:
+                continue
+            seen.add(sig)
+            a = max(s for s, _ in hs if s <= idx)
+            hops = lo[a + 1: idx + 1]
+            if replay_file is None:
+                hops = shrink_history(R, pid, d, os.path.join(wd, "shrink"), hops, sig)
+            _, hobs = hist_replay_hits(R, pid, d, os.path.join(wd, "shrink"), hops, sig)
+            res["monitor_hits"].append({"signature": sig, "driver": d["name"], "ops": hops,
+                                        "impl": [x.split(" || ")[0] for x in (hobs or [])][1:],
+                                        "what": "monitor %s fired on the implementation's trace at the last operation" % sig})
+    res["histogram"]["monitor_hits_other_properties"] = other
+    return res
 
 
 def run_pure(R, pid, d, work, seed, tier, replay_file=None):
@@ -84,4 +215,9 @@ def replay_hit(R, pid, payload, work):
     if d["kind"] == "pure":
         res = run_pure(R, pid, d, work, payload.get("seed", 1), "quick", replay_file=rf)
         return res["monitor_hits"]
+    if d["kind"] == "hist":
+        hit, hobs = hist_replay_hits(R, pid, d, work, payload["ops"], payload["signature"])
+        if hit:
+            return [{"signature": payload["signature"], "ops": payload["ops"], "impl": [x.split(" || ")[0] for x in hobs][1:]}]
+        return []
     raise ValueError(d["kind"])
